@@ -148,8 +148,8 @@ func judgeC03(c *SrvCase, obs *SrvObs, o *Outcome) {
 		}
 	}
 	for _, e := range obs.Log {
-		if e.Call == "auth" && e.Scheme != "" && !containsStr(c.Cfg.Schemes, e.Scheme) {
-			o.Fail("C03/auth-called-with-unoffered-scheme", "Authenticate ran for scheme %s, offered %v", e.Scheme, c.Cfg.Schemes)
+		if e.Call == "auth" && e.Scheme != "" && !containsStr(offeredSchemes(c, obs), e.Scheme) {
+			o.Fail("C03/auth-called-with-unoffered-scheme", "Authenticate ran for scheme %s, offered %v", e.Scheme, offeredSchemes(c, obs))
 		}
 	}
 	if !(estEnv != nil || estState || estCb) {
@@ -208,8 +208,8 @@ func judgeC03Established(c *SrvCase, obs *SrvObs, o *Outcome, estEnv M, estStep 
 	if a.Identity != ident || a.Scheme != ps || a.Cred != pc {
 		o.Fail("C03/auth-args-mismatch", "authentication ran for (%q,%q,%q) but the peer presented (%q,%q,%q)", a.Identity, a.Scheme, a.Cred, ident, ps, pc)
 	}
-	if !containsStr(c.Cfg.Schemes, last.Scheme) {
-		o.Fail("C03/established-with-unoffered-scheme", "established under scheme %q, offered %v", last.Scheme, c.Cfg.Schemes)
+	if off := offeredSchemes(c, obs); !containsStr(off, last.Scheme) {
+		o.Fail("C03/established-with-unoffered-scheme", "established under scheme %q, offered %v (configured %v)", last.Scheme, off, c.Cfg.Schemes)
 	}
 	regNode := ""
 	found := false
@@ -656,4 +656,32 @@ func bubbleLeftovers() (lib []string, other []string) {
 		}
 	}
 	return
+}
+
+// offeredSchemes: what this peer was offered - the scheme options of the authentication request the server actually sent
+// it, as the peer read them off the connection; the configured list where no such request was seen. A scheme counts as
+// offered only if it is in both (a server may offer less than it is configured with, never more).
+func offeredSchemes(c *SrvCase, obs *SrvObs) []string {
+	var wire []string
+	seen := false
+	for _, g := range obs.Got {
+		if st, _ := g.Env["state"].(string); st != "authenticating" {
+			continue
+		}
+		opts, ok := g.Env["schemeOptions"].([]interface{})
+		if !ok {
+			continue
+		}
+		seen = true
+		wire = wire[:0]
+		for _, x := range opts {
+			if t, ok := x.(string); ok {
+				wire = append(wire, t)
+			}
+		}
+	}
+	if !seen {
+		return c.Cfg.Schemes
+	}
+	return intersectStr(c.Cfg.Schemes, wire)
 }
